@@ -34,6 +34,7 @@ type c09Op struct {
 	File     int    `json:"file,omitempty"`
 	ES6      bool   `json:"es6,omitempty"`
 	Seed     uint64 `json:"seed,omitempty"` // compile: seed of the independent bundle
+	Bad      bool   `json:"bad,omitempty"`  // compile / parse: the (first) file is damaged first
 }
 
 type c09Sched struct {
@@ -176,6 +177,9 @@ func execOp(op c09Op, cc *sut.Compiled, dataMaps, ijMaps []data.Map, cat soymsg.
 		}
 	case "compile":
 		gc := gen.Generate(op.Seed, smallOpts())
+		if op.Bad {
+			gc.Files[0] = &gen.File{Name: gc.Files[0].Name, Text: damage(gc.Files[0].Source(), op.Seed)}
+		}
 		c2, err := sut.Compile(gc)
 		r.err = err != nil
 		if err == nil {
@@ -190,7 +194,11 @@ func execOp(op c09Op, cc *sut.Compiled, dataMaps, ijMaps []data.Map, cat soymsg.
 		}
 	case "parse":
 		gc := gen.Generate(op.Seed, smallOpts())
-		n, err := parse.SoyFile("p.soy", gc.Files[0].Source())
+		src := gc.Files[0].Source()
+		if op.Bad {
+			src = damage(src, op.Seed)
+		}
+		n, err := parse.SoyFile("p.soy", src)
 		r.err = err != nil
 		if n != nil {
 			r.out = []byte(fmt.Sprint(len(n.Body)))
@@ -200,6 +208,32 @@ func execOp(op c09Op, cc *sut.Compiled, dataMaps, ijMaps []data.Map, cat soymsg.
 }
 
 func opKey(op c09Op) string { return fmt.Sprintf("%+v", op) }
+
+// damage makes a Soy file malformed in one of the ways C05 uses (scanner and parser then take
+// their error paths -- drain, recover -- concurrently with everything else in the run).
+func damage(src string, seed uint64) string {
+	r := simrt.NewRNG(seed ^ 0xbad)
+	if len(src) < 8 {
+		return src + "{"
+	}
+	i := 1 + r.Intn(len(src)-2)
+	switch r.Intn(7) {
+	case 0:
+		return src[:i] // truncated
+	case 1:
+		return src[:i] + "{/if}" + src[i:] // stray close tag, more input follows
+	case 2:
+		return src[:i] + "{foo bar}" + src[i:] // unknown command
+	case 3:
+		return src[:i] + "{print 1 2 3}" + src[i:] // expression error inside a tag
+	case 4:
+		return src[:i] + "{call .x data=\"[1 2\"/}" + src[i:] // error inside a quoted expression
+	case 5:
+		return src[:i] + "'" + src[i:] + "\n{" // unterminated things
+	default:
+		return src[:i] + "{msg desc=\"\"}{plural $n}" + src[i:]
+	}
+}
 
 // poolMap / poolData are Go structs with the shape of the generator's parameter pool: rendering
 // with them goes through Tofu.Render's conversion of Go values (data.New, struct options).
@@ -317,6 +351,9 @@ type c09Outcome struct {
 func c09Run(cs *c09One, replay bool) c09Outcome {
 	sut.InstallExtensions()
 	sut.SetObligatory(cs.Obligatory)
+	// one application-wide globals map is handed to every bundle of the run (AddGlobalsMap copies it)
+	sut.SharedGlobals = data.Map{"SHARED_N": data.Int(7), "shared.NAME": data.String("s")}
+	defer func() { sut.SharedGlobals = nil }()
 	if cs.Logger {
 		soyhtml.Logger = log.New(io.Discard, "", 0)
 	} else {
@@ -573,9 +610,9 @@ func c09Generate(c *wk.Ctx, run, i int) *c09One {
 			case x < 84:
 				ops = append(ops, c09Op{Op: "js", File: r.Intn(4), ES6: r.Intn(2) == 0, Cat: useCat && r.Intn(2) == 0})
 			case x < 93:
-				ops = append(ops, c09Op{Op: "compile", Seed: c.UnitSeed(run, uint64(3000+i*64+t*8+k))})
+				ops = append(ops, c09Op{Op: "compile", Seed: c.UnitSeed(run, uint64(3000+i*64+t*8+k)), Bad: r.Intn(5) < 2})
 			default:
-				ops = append(ops, c09Op{Op: "parse", Seed: c.UnitSeed(run, uint64(5000+i*64+t*8+k))})
+				ops = append(ops, c09Op{Op: "parse", Seed: c.UnitSeed(run, uint64(5000+i*64+t*8+k)), Bad: r.Intn(5) < 2})
 			}
 		}
 		cs.Tasks = append(cs.Tasks, ops)
@@ -701,6 +738,9 @@ func C09(c *wk.Ctx) {
 			for _, t := range cs.Tasks {
 				for _, op := range t {
 					u.Counters["op_"+op.Op]++
+					if op.Bad {
+						u.Counters["op_"+op.Op+"_malformed"]++
+					}
 					if op.Cat {
 						u.Counters["op_with_catalogue"]++
 					}
